@@ -5,7 +5,7 @@
    (PotentialThms.unc_ok: the floor-free case).  phi s t = ncancel t - sum of _pending_uncancellations of the
    scopes hosted by t. *)
 From Coq Require Import ZArith.
-From AV Require Import Base Machine ScopeFrames DeliverInv TreeInv DeliverAlive PotentialInv TreeStep KernelInv DeliverThms PotentialThms CycleThms NativeAbsorbed.
+From AV Require Import Base Machine ScopeFrames DeliverInv TreeInv DeliverAlive PotentialInv TreeStep KernelInv DeliverThms PotentialThms CycleThms NativeAbsorbed DebtInv HdInv DebtThms.
 
 (* the three RuntimeError guards of __exit__: otherwise nothing changes *)
 Theorem C05_scope_exit_guarded : forall s c t exc,
@@ -143,3 +143,124 @@ Theorem C05_native_request_absorbed_refuted :
   s_caught (scopes s 1%nat) = true /\ s_active (scopes s 1%nat) = false /\ s_pending (scopes s 1%nat) = 0%nat.
 Proof. exact native_request_absorbed_witness. Qed.
 Print Assumptions C05_native_request_absorbed_refuted.
+
+(* ---- entry-relative restoration of cancelling() (audit C05 items 2 and 3.2/3.3) ----
+   anc s y x   = y is x or an ancestor of x along the parent links (shields are ignored)
+   clean s t   = no scope on the parent chain of t's current scope is cancelled; it implies that t is not
+                 effectively cancelled (C05_clean_not_effectively_cancelled), not conversely (a shield can hide a
+                 cancelled ancestor: see the refuted witness below)
+   ext_count   = (# native Task.cancel() on t while it is alive) - (# effective explicit uncancel() by t) in the run *)
+
+(* a delivery callback in the ready queue always belongs to a cancelled scope (no stale callback can create a
+   debt for a scope that was never cancelled) *)
+Theorem C05_delivery_callback_scope_cancelled : forall s c,
+  reach_ok s -> In (HDeliver c) (ready s) -> s_cancelled (scopes s c) = true.
+Proof. exact deliver_handle_cancelled. Qed.
+Print Assumptions C05_delivery_callback_scope_cancelled.
+
+(* where debts can sit, in every reachable state: on hosted scopes only, and only on a scope that is cancelled or
+   has a cancelled ancestor (deliveries create debts on their cancelled origin; __exit__ hands a debt to the
+   parent only if the scope was not cancelled itself - then the cancelled scope lies further up - or if the
+   parent's chain shows a cancelled scope) *)
+Theorem C05_debts_only_under_cancelled : forall s,
+  reach_ok s ->
+  (forall x, s_host (scopes s x) = None -> s_pending (scopes s x) = 0) /\
+  (forall x, 0 < s_pending (scopes s x) -> exists y, anc s y x /\ s_cancelled (scopes s y) = true).
+Proof. exact debts_only_under_cancelled. Qed.
+Print Assumptions C05_debts_only_under_cancelled.
+
+(* hence a task that has no cancelled scope around it owes nothing: every scope it hosts is its current scope or
+   an ancestor of it (structural invariant) *)
+Theorem C05_no_debt_outside_cancelled : forall s t,
+  reach_ok2 s -> alloc_t s t -> clean s t -> pending_of s t = 0.
+Proof. exact clean_no_debt. Qed.
+Print Assumptions C05_no_debt_outside_cancelled.
+
+Theorem C05_clean_not_effectively_cancelled : forall s t fuel,
+  clean s t -> eff_cancelled_from fuel s (k_cur (tasks s t)) = false.
+Proof. exact clean_not_effectively_cancelled. Qed.
+Print Assumptions C05_clean_not_effectively_cancelled.
+
+(* root tasks (not spawned into a task group), any run of the domain from s: if no scope around the task is
+   cancelled at the start and at the end, cancelling() has moved exactly by the native cancels and explicit
+   uncancels in between.  Every delivery the task received in between came from a scope it hosts itself and has
+   been compensated by the time that scope and its cancelled ancestors have been left - whatever was entered,
+   cancelled, shielded, handed over and left meanwhile. *)
+Theorem C05_cancelling_back_at_entry : forall ops s t,
+  reach_ok2 s -> ops_ok2 s ops = true -> alloc_t s t -> k_group (tasks s t) = None ->
+  clean s t -> clean (final step s ops) t ->
+  Z.of_nat (k_ncancel (tasks (final step s ops) t)) = (Z.of_nat (k_ncancel (tasks s t)) + ext_count s ops t)%Z.
+Proof. exact cancelling_back_at_entry. Qed.
+Print Assumptions C05_cancelling_back_at_entry.
+
+(* the instance the property text talks about: from before `with scope:` to after it *)
+Theorem C05_cancelling_back_at_entry_scope : forall s t c mid fa,
+  reach_ok2 s -> alloc_t s t -> k_group (tasks s t) = None ->
+  let ops := AEnter t c :: mid ++ [AExit t c fa] in
+  ops_ok2 s ops = true -> clean s t -> clean (final step s ops) t ->
+  Z.of_nat (k_ncancel (tasks (final step s ops) t)) = (Z.of_nat (k_ncancel (tasks s t)) + ext_count s ops t)%Z.
+Proof. exact cancelling_back_at_entry_scope. Qed.
+Print Assumptions C05_cancelling_back_at_entry_scope.
+
+(* every task, group children included: the count is at least that.  The surplus consists of the deliveries
+   whose origin is hosted by another task (the group scope or a scope above it): _deliver_cancellation raises
+   the task's counter but records the debt only `if task is origin._host_task`, so nobody ever compensates
+   them (by design; see the witness below).  For root tasks the surplus is zero (previous theorem). *)
+Theorem C05_cancelling_back_at_entry_lower : forall ops s t,
+  reach_ok2 s -> ops_ok2 s ops = true -> alloc_t s t ->
+  clean s t -> clean (final step s ops) t ->
+  (Z.of_nat (k_ncancel (tasks s t)) + ext_count s ops t <= Z.of_nat (k_ncancel (tasks (final step s ops) t)))%Z.
+Proof. exact cancelling_back_at_entry_lower. Qed.
+Print Assumptions C05_cancelling_back_at_entry_lower.
+
+(* non-vacuity: task 1 enters scopes 1 > 2 > 3, scopes 1 and 3 are cancelled, the delivery of 3 hits the
+   sleeping task, scope 3 hands its debt to scope 2, the task leaves 3, 2 and 1: clean at both ends (no scope
+   around), the count is back at its value *)
+Theorem C05_cancelling_back_at_entry_nonvacuous :
+  let s0 := final step init [ANewRoot] in
+  let ops := tl handover_pre ++ handover_mid ++ handover_post in
+  ops_ok2 init (ANewRoot :: ops) = true /\
+  k_cur (tasks s0 1) = None /\ k_cur (tasks (final step s0 ops) 1) = None /\
+  k_group (tasks s0 1) = None /\ ext_count s0 ops 1 = 0%Z /\
+  k_ncancel (tasks (final step s0 ops) 1) = k_ncancel (tasks s0 1).
+Proof. exact back_at_entry_premises. Qed.
+Print Assumptions C05_cancelling_back_at_entry_nonvacuous.
+
+(* audit 3.2 decided.  With "no enclosing scope is EFFECTIVELY cancelled" in place of `clean` the restoration
+   clause is refuted: handover_mid = [AEnter 1 3; ACancel 1 1; ACancel 1 3; ASleep 1 None; ARun (HDeliver 1);
+   ARun (HDeliver 3); ARun (HWake 1 10); AExit 1 3 false; ASetShield 1 2 true].  After it the task's current
+   scope 2 is shielded and not effectively cancelled, cancelling() is 1 (0 when scope 3 was entered, no native
+   event), and the debt handed over by scope 3 sits on scope 2.  The debt is paid when the cancelled ancestor is
+   left (last line: after leaving 2 and 1 the count is 0), which is what C05_cancelling_back_at_entry states in
+   general. *)
+Theorem C05_count_elevated_behind_shield_refuted :
+  let s0 := final step init handover_pre in
+  let s1 := final step s0 handover_mid in
+  let s2 := final step s1 handover_post in
+  ops_ok2 init (handover_pre ++ handover_mid ++ handover_post) = true /\
+  k_ncancel (tasks s0 1) = 0 /\ k_cur (tasks s0 1) = Some 2 /\
+  k_ncancel (tasks s1 1) = 1 /\ k_cur (tasks s1 1) = Some 2 /\ idle s1 1 = true /\
+  eff_cancelled_from (nscope s1) s1 (k_cur (tasks s1 1)) = false /\
+  s_pending (scopes s1 2) = 1 /\ s_shield (scopes s1 2) = true /\ s_cancelled (scopes s1 2) = false /\
+  ext_count s0 handover_mid 1 = 0%Z /\
+  k_ncancel (tasks s2 1) = 0 /\ k_cur (tasks s2 1) = None.
+Proof. exact count_elevated_behind_shield_witness. Qed.
+Print Assumptions C05_count_elevated_behind_shield_refuted.
+
+(* audit 3.3: a group child.  child_mid = [AEnter 2 3; ASleep 2 None; ACancel 1 1; ARun (HWake 2 8);
+   AExit 2 3 false; ASetShield 2 2 true]: the host cancels the group scope 1 while child 2 sleeps in its own
+   scope 3; the delivery raises the child's counter to 1 and records no debt anywhere (pending_of = 0: the
+   origin is hosted by task 1); after leaving scope 3 the count is 1, not the 0 of entry, and it stays 1 even when
+   the child is no longer effectively cancelled (it shields its own handle scope).  Restoration relative to entry
+   fails for group children exactly by these foreign deliveries; the true statement is the lower bound above. *)
+Theorem C05_child_foreign_delivery_refuted :
+  let s0 := final step init child_pre in
+  let s1 := final step s0 child_mid in
+  ops_ok2 init (child_pre ++ child_mid) = true /\
+  k_group (tasks s0 2) = Some 1 /\ k_ncancel (tasks s0 2) = 0 /\ k_cur (tasks s0 2) = Some 2 /\
+  k_ncancel (tasks s1 2) = 1 /\ k_cur (tasks s1 2) = Some 2 /\ pending_of s1 2 = 0 /\ idle s1 2 = true /\
+  eff_cancelled_from (nscope s1) s1 (k_cur (tasks s1 2)) = false /\
+  s_host (scopes s1 1) = Some 1 /\ s_cancelled (scopes s1 1) = true /\
+  ext_count s0 child_mid 2 = 0%Z.
+Proof. exact child_foreign_delivery_witness. Qed.
+Print Assumptions C05_child_foreign_delivery_refuted.
